@@ -26,11 +26,13 @@ Fixpoint skip_close (ls : list line) : option (list line) :=
   end.
 
 Section Machine.
-(* what calling a function does: name, argument texts, environment -> environment afterwards and what was printed
-   (the function bodies are run by the machine itself, one level down: see call_of below); and the positional
-   parameters of the function body that is being run *)
-Variable call : bytes -> list bytes -> shenv -> option (shenv * bytes).
+(* what calling a function does: fuel for the run of its body, name, argument texts, environment -> environment
+   afterwards and what was printed (the function bodies are run by the machine itself, one level down: see call_of
+   below; a call gets the fuel its caller has left, more fuel never changes a result); and the positional parameters of
+   the function body that is being run *)
+Variable call : nat -> bytes -> list bytes -> shenv -> option (shenv * bytes).
 Variable pos : list bytes.
+Definition fuel_mono : Prop := forall f f' n a e r, (f <= f')%nat -> call f n a e = Some r -> call f' n a e = Some r.
 
 Fixpoint lrun (fuel : nat) (seek : bool) (e : shenv) (L : list (list line)) (ls : list line) : option (shenv * bytes) :=
   match fuel with
@@ -84,7 +86,7 @@ Fixpoint lrun (fuel : nat) (seek : bool) (e : shenv) (L : list (list line)) (ls 
             | LReturn => Some (e, [])
             | LClose => Some (e, [])
             | LCall name args =>
-                match call name (map (atom_text e) args) e with
+                match call f name (map (atom_text e) args) e with
                 | Some (e1, o1) => match lrun f false e1 L r with Some (e2, o2) => Some (e2, o1 ++ o2) | None => None end
                 | None => None
                 end
@@ -96,9 +98,9 @@ Fixpoint lrun (fuel : nat) (seek : bool) (e : shenv) (L : list (list line)) (ls 
       end
   end.
 
-Lemma lrun_mono : forall f seek e L ls res, lrun f seek e L ls = Some res -> forall f', (f <= f')%nat -> lrun f' seek e L ls = Some res.
+Lemma lrun_mono : fuel_mono -> forall f seek e L ls res, lrun f seek e L ls = Some res -> forall f', (f <= f')%nat -> lrun f' seek e L ls = Some res.
 Proof.
-  induction f as [|f IH]; intros seek e L ls res H f' Hle; [discriminate|].
+  intro Hcm. induction f as [|f IH]; intros seek e L ls res H f' Hle; [discriminate|].
   destruct f' as [|f']; [lia|]. assert (f <= f')%nat as Hle' by lia.
   cbn [lrun] in *. destruct ls as [|l r]; [exact H|].
   destruct seek.
@@ -121,7 +123,34 @@ Proof.
     + destruct L as [|t L']; [discriminate|]. exact (IH _ _ _ _ _ H f' Hle').
     + destruct L as [|t L']; [discriminate|]. destruct (skip_done r 0); [exact (IH _ _ _ _ _ H f' Hle')|discriminate].
     + destruct L as [|t L']; [discriminate|]. exact (IH _ _ _ _ _ H f' Hle').
-    + destruct (call name (map (atom_text e) args) e) as [[e1 o1]|]; [|discriminate].
+    + destruct (call f name (map (atom_text e) args) e) as [[e1 o1]|] eqn:Ec; [|discriminate]. rewrite (Hcm _ _ _ _ _ _ Hle' Ec).
       destruct (lrun f false e1 L r) as [[e2 o2]|] eqn:E; [|discriminate]. rewrite (IH _ _ _ _ _ E f' Hle'). exact H.
 Qed.
 End Machine.
+
+(* ---- the call oracle of a script ---- *)
+(* the lines behind  name() {  in the script *)
+Fixpoint find_def (name : bytes) (ls : list line) : option (list line) :=
+  match ls with
+  | [] => None
+  | LFuncOpen n :: r => if beq n name then Some r else find_def name r
+  | _ :: r => find_def name r
+  end.
+
+(* a call runs the lines of the definition with the arguments as positional parameters, up to its return or closing
+   brace; the functions it calls are run one level down (TypeShell has no recursion: depth bounds the nesting of calls) *)
+Fixpoint call_of (script : list line) (depth fuel : nat) (name : bytes) (args : list bytes) (e : shenv) : option (shenv * bytes) :=
+  match depth with
+  | O => None
+  | S d => match find_def name script with
+           | Some body => lrun (call_of script d) args fuel false e [] body
+           | None => None
+           end
+  end.
+
+Lemma call_of_mono script : forall d, fuel_mono (call_of script d).
+Proof.
+  induction d as [|d IH]; intros f f' name args e r Hf H; [discriminate|].
+  cbn [call_of] in *. destruct (find_def name script) as [body|]; [|discriminate].
+  exact (lrun_mono _ args IH f false e [] body r H f' Hf).
+Qed.
